@@ -4,7 +4,7 @@ use crate::fields::*;
 use crate::parser::MessageParser;
 use crate::parser::utils::*;
 use serde::{Deserialize, Serialize};
-use std::collections::HashSet;
+use std::collections::BTreeSet;
 
 /// **MT204: Financial Markets Direct Debit Message**
 ///
@@ -153,7 +153,7 @@ impl MT204 {
     }
 
     /// Get all unique currency codes from Sequence B transactions
-    fn get_transaction_currencies(&self) -> HashSet<String> {
+    fn get_transaction_currencies(&self) -> BTreeSet<String> {
         self.transactions
             .iter()
             .map(|tx| tx.currency_amount.currency.clone())
